@@ -92,6 +92,7 @@ RESOLVE_STANDINS = """
 #[verifier::external_body]
 pub(crate) fn resolve_recursive(context: &mut Context<'_, RecursiveContextInner>, question: &Question) -> (r: Result<ResolvedRecord, ResolutionError>)
     requires old(context).r.upstream_dns_port == configured_port(), // [C18:the_context_carries_the_configured_port]
+        !forwarding_mode(), // [C18:in_forwarding_mode_the_recursive_resolver_is_not_used]
     ensures question.qtype != QueryType::Wildcard && r is Ok ==> chain_ok(resolved_rrs(r->Ok_0), question.name),
             r is Ok ==> typed_ok(resolved_rrs(r->Ok_0), question.qtype),
 { unimplemented!() }
@@ -181,6 +182,8 @@ FORWARD_STANDINS = """
 // C18: the forwarder / upstream port this server process is configured with (dns_resolver::resolve puts them into the context)
 pub uninterp spec fn configured_forwarder() -> SocketAddr;
 pub uninterp spec fn configured_port() -> u16;
+// forwarding mode: a forwarder address is configured
+pub uninterp spec fn forwarding_mode() -> bool;
 #[verifier::external_body]
 pub fn query_nameserver(address: SocketAddr, question: Question, recursion_desired: bool) -> (r: Option<Message>)
     requires address == configured_forwarder(), // [C18:forwarding_mode_asks_only_the_configured_forwarder]
@@ -241,6 +244,7 @@ RESOLVE = {
                  ("R31", r"resolve_local\(&mut context, question\)\.map\(ResolvedRecord::from\)",
                   "match resolve_local(&mut context, question) { Ok(lsr__) => Ok(ResolvedRecord::from(lsr__)), Err(e__) => Err(e__) }")],
     "contract": """    requires upstream_dns_port == configured_port(), forward_address is Some ==> forward_address->Some_0 == configured_forwarder(),
+        forwarding_mode() == (forward_address is Some),
     ensures
         // C09: an answer section holds only records for the question name or its CNAME chain; C10: in chain order
         question.qtype != QueryType::Wildcard && r.1 is Ok ==> chain_ok(resolved_rrs(r.1->Ok_0), question.name), // [C09,C10:answer_holds_only_the_question_name_and_its_alias_chain]
@@ -646,6 +650,7 @@ def build(G):
 
 
 CANARIES = [
+    {"name": "forwarder_ignored_unless_port_is_53", "file": "crates/dns-resolver/src/lib.rs", "old": "    match (is_recursive, forward_address) {", "new": "    let forward_address = if upstream_dns_port == 53 { forward_address } else { None };\n    match (is_recursive, forward_address) {"},
     {"name": "forwarding_budget_five_minutes", "file": "crates/dns-resolver/src/forwarding.rs", "old": "        Duration::from_mins(1),\n        resolve_forwarding_notimeout(context, question),", "new": "        Duration::from_mins(5),\n        resolve_forwarding_notimeout(context, question),"},
     {"name": "forwarding_asks_upstream_despite_local_answer", "file": "crates/dns-resolver/src/forwarding.rs", "old": "Ok(LocalResolutionResult::Done { resolved }) => return Ok(resolved),", "new": "Ok(LocalResolutionResult::Done { resolved }) => combined_rrs = resolved.rrs(),"},
     {"name": "forwarding_chain_tail_first", "file": "crates/dns-resolver/src/forwarding.rs", "old": "                    combined_rrs.append(&mut rrs);\n                    combined_rrs.append(&mut r_rrs);", "new": "                    combined_rrs.append(&mut r_rrs);\n                    combined_rrs.append(&mut rrs);"},
